@@ -194,9 +194,9 @@ theorem requestOK_of_cases (h : Fam c A B T q fs) (hs : SvcFam c A B T q fs SA S
     · intro f hf
       rw [hA, rootRq, occOn_root h hs ty _ [] f hf]
       cases f.2.2 <;> simp [h.hAB]
-  · refine ⟨by rw [hB]; exact validFor_lookup h hs hne _, Or.inr ⟨rfl, isNodeLookup_rqB c _ T q _ _, i, hi, rfl⟩, ?_⟩
+  · refine ⟨by rw [hB]; exact validFor_lookup h.toFamT hs.toSvcB hne _, Or.inr ⟨rfl, isNodeLookup_rqB c _ T q _ _, i, hi, rfl⟩, ?_⟩
     intro f hf
-    rw [hB, occOn_lookup h hs _ f hf]
+    rw [hB, occOn_lookup h.toFamT hs.toSvcB _ f hf]
     cases f.2.2 <;> simp [hBA]
 
 /-- **one object, EVERY downstream** -/
